@@ -39,8 +39,22 @@ func (m *Module) alias(from, of int) string {
 }
 
 func (m *Module) typeExpr(from int, r Ref, imports map[int]bool) string {
-	if t := m.Types[r.Idx]; t.Kind == "uslice" {
-		return "[]" + m.qual(from, m.Types[t.Elem], imports)
+	if t := m.Types[r.Idx]; Unnamed(t.Kind) {
+		e := m.qual(from, m.Types[t.Elem], imports)
+		switch t.Kind {
+		case "uslice":
+			return "[]" + e
+		case "uarray":
+			return "[2]" + e
+		case "umap":
+			return "map[string]" + e
+		case "uptr":
+			return "*" + e
+		case "uchan":
+			return "chan " + e
+		case "ustruct":
+			return "struct{ V " + e + " }"
+		}
 	}
 	s := m.qual(from, m.Types[r.Idx], imports)
 	if r.Ptr {
@@ -88,8 +102,23 @@ func underlying(kind string) string {
 // ctx: "call" inside a provider body (function literals allowed), "const" for wire.Value arguments.
 func (m *Module) construct(from int, r Ref, idExpr string, imports map[int]bool, childIDs func(f Field) string) string {
 	t := m.Types[r.Idx]
-	if t.Kind == "uslice" {
-		return "[]" + m.qual(from, m.Types[t.Elem], imports) + "{" + m.construct(from, Ref{Idx: t.Elem}, idExpr, imports, nil) + "}"
+	if Unnamed(t.Kind) {
+		te := m.typeExpr(from, r, imports)
+		el := m.construct(from, Ref{Idx: t.Elem}, idExpr, imports, nil)
+		switch t.Kind {
+		case "uslice":
+			return te + "{" + el + "}"
+		case "uarray":
+			return te + "{" + el + ", " + el + "}"
+		case "umap":
+			return te + "{\"k\": " + el + "}"
+		case "uptr":
+			return "func() " + te + " { v := " + el + "; return &v }()"
+		case "uchan":
+			return "make(" + te + ", 1)"
+		case "ustruct":
+			return te + "{V: " + el + "}"
+		}
 	}
 	name := m.qual(from, t, imports)
 	var e string
@@ -370,7 +399,9 @@ func (m *Module) renderTypes(p *Pkg) world.File {
 			b.WriteString("var arg = \"decoy\"\n\n")
 		}
 	}
-	b.WriteString("var _ = simrt.Str\n\n")
+	if !p.Facade {
+		b.WriteString("var _ = simrt.Str\n\n")
+	}
 	for _, t := range m.Types {
 		if t.Pkg == p.Idx && !t.Dead && (t.Src.Kind == "value" || t.Src.Kind == "ifacevalue") && t.Src.ConstID%2 == 0 {
 			fmt.Fprintf(&b, "const Const%d = %d\n\n", t.Idx, t.Src.ConstID)
@@ -401,7 +432,7 @@ func (m *Module) renderTypes(p *Pkg) world.File {
 			if t.Src.Kind != "struct" {
 				fmt.Fprintf(&b, "func (x %s) VID() int { return x.ID }\n\n", t.Name)
 			}
-		case "uslice":
+		case "uslice", "uarray", "umap", "uptr", "uchan", "ustruct":
 			// an unnamed type: nothing to declare
 		default:
 			fmt.Fprintf(&b, "type %s %s\n\n", t.Name, underlying(t.Kind))
@@ -453,8 +484,11 @@ func (m *Module) renderTypes(p *Pkg) world.File {
 			}
 			val := m.construct(p.Idx, res, "h.ID()", imports, childIDs)
 			zero := zeroExpr(t.Kind, t.Ptr, t.Name)
-			if t.Kind == "uslice" {
+			if Unnamed(t.Kind) {
 				zero = "nil"
+				if t.Kind == "uarray" || t.Kind == "ustruct" {
+					zero = rt + "{}"
+				}
 			}
 			if t.Src.HasErr {
 				b.WriteString("\tif h.Fail() {\n\t\tif h.Poison() {\n")
@@ -533,6 +567,9 @@ func (m *Module) renderTypes(p *Pkg) world.File {
 		}
 	}
 	extra := []string{m.SimrtPath()}
+	if p.Facade {
+		extra = nil
+	}
 	if needWire {
 		extra = append(extra, "github.com/google/wire")
 	}
@@ -599,7 +636,12 @@ func (m *Module) renderInjectors(p *Pkg) []world.File {
 				fmt.Fprintf(&b, "\tpanic(%s)\n}\n\n", build)
 			} else {
 				t := m.Types[inj.Result.Idx]
-				z := zeroExpr(t.Kind, inj.Result.Ptr, m.qual(p.Idx, t, imports))
+				z := "nil"
+				if !Unnamed(t.Kind) {
+					z = zeroExpr(t.Kind, inj.Result.Ptr, m.qual(p.Idx, t, imports))
+				} else if t.Kind == "uarray" || t.Kind == "ustruct" {
+					z = rt + "{}"
+				}
 				ret := z
 				if inj.DeclCleanup {
 					ret += ", nil"
